@@ -189,7 +189,7 @@ func (x *Exec) growAlloc(st *State) {
 	old := vc.heapGet(st, "$alloc", as)
 	nh := vc.freshConst("alloc", as)
 	vc.assert(raw(fmt.Sprintf("(forall ((r Int)) (! (=> (select %s r) (select %s r)) :pattern ((select %s r))))", old.S, nh.S, nh.S), SBool))
-	st.heap["$alloc"] = nh
+	x.vc.setHeap(st, "$alloc", nh, -1)
 }
 
 // havocCall: the callee may do anything to the heap.
@@ -287,7 +287,7 @@ func (x *Exec) applyContract(fr *frame, st *State, fc *FuncContract, sig *types.
 		vars[n] = args[i]
 	}
 	pre := st.clone()
-	env := &SpecEnv{x: x, st: pre, old: pre, vars: vars, inCall: true, pkg: x.eng.pkgByPath(fc.Pkg)}
+	env := &SpecEnv{x: x, st: pre, old: pre, vars: vars, inCall: true, pkg: x.eng.pkgByPath(fc.Pkg), pol: -1}
 	for j, r := range fc.Requires {
 		t, err := x.evalBool(r.Expr, env)
 		if err != nil {
@@ -327,18 +327,18 @@ func (x *Exec) applyContract(fr *frame, st *State, fc *FuncContract, sig *types.
 		for _, t := range targets {
 			h := vc.heapGet(st, t.key, t.sort)
 			if t.all {
-				st.heap[t.key] = vc.freshConst("Hc", t.sort)
+				x.vc.setHeap(st, t.key, vc.freshConst("Hc", t.sort), -1)
 				continue
 			}
 			_, vs := arraySorts(t.sort)
 			if len(t.path) > 0 {
 				nv := vc.freshConst("hc", vc.sortOf(t.leaf))
 				vc.assume(st.pc, vc.wf(st, nv, t.leaf, 0))
-				st.heap[t.key] = vc.bind("H", Store(h, t.ref, vc.update(Select(h, t.ref), t.path, nv)))
+				x.vc.setHeap(st, t.key, vc.bind("H", Store(h, t.ref, vc.update(Select(h, t.ref), t.path, nv))), pathField(t.path))
 				continue
 			}
 			nv := vc.freshConst("hc", vs)
-			st.heap[t.key] = vc.bind("H", Store(h, t.ref, nv))
+			x.vc.setHeap(st, t.key, vc.bind("H", Store(h, t.ref, nv)), -1)
 		}
 	}
 	// ghost updates declared by the contract: "ghost name = expr" clauses are in Opts["ghost:<name>"]
@@ -373,7 +373,7 @@ func (x *Exec) applyContract(fr *frame, st *State, fc *FuncContract, sig *types.
 		}
 		st.ghost[gname[6:]] = vc.bind("g", v.T)
 	}
-	penv := &SpecEnv{x: x, st: st, old: pre, vars: post, inCall: true, pkg: env.pkg}
+	penv := &SpecEnv{x: x, st: st, old: pre, vars: post, inCall: true, pkg: env.pkg, pol: 1}
 	for _, e := range fc.Ensures {
 		t, err := x.evalBool(e.Expr, penv)
 		if err != nil {
@@ -693,7 +693,7 @@ func (x *Exec) builtin(fr *frame, st *State, b *ssa.Builtin, c *ssa.CallCommon, 
 		case *types.Slice:
 			return Val{T: app(idxS, "s-"+b.Name(), a.T), Typ: types.Typ[types.Int]}, nil
 		case *types.Basic:
-			return Val{T: app(idxS, "str.len", a.T), Typ: types.Typ[types.Int]}, nil
+			return Val{T: app(idxS, "gs.len", a.T), Typ: types.Typ[types.Int]}, nil
 		case *types.Array:
 			return Val{T: vc.idx(t.Len()), Typ: types.Typ[types.Int]}, nil
 		case *types.Pointer:
@@ -724,7 +724,7 @@ func (x *Exec) builtin(fr *frame, st *State, b *ssa.Builtin, c *ssa.CallCommon, 
 		m := args[0].T
 		// delete on nil map is a no-op
 		upd := Store(has, m, Store(Select(has, m), args[1].T, TFalse))
-		st.heap[hk] = vc.bind("M", Ite(Eq(m, intLit64(0)), has, upd))
+		x.vc.setHeap(st, hk, vc.bind("M", Ite(Eq(m, intLit64(0)), has, upd)), -1)
 		return Val{}, nil
 	case "print", "println":
 		return Val{}, nil
@@ -775,8 +775,8 @@ func (x *Exec) builtinAppend(fr *frame, st *State, c *ssa.CallCommon, args []Val
 	var n Term
 	var srcAt func(i Term) Term
 	if isString(c.Args[1].Type()) {
-		n = app(idxS, "str.len", args[1].T)
-		srcAt = func(i Term) Term { return app(vc.ar.Sort(IntKind{8, false}), "str.at", args[1].T, i) }
+		n = app(idxS, "gs.len", args[1].T)
+		srcAt = func(i Term) Term { return app(vc.ar.Sort(IntKind{8, false}), "gs.at", args[1].T, i) }
 	} else {
 		t := args[1].T
 		n = app(idxS, "s-len", t)
@@ -831,14 +831,33 @@ func (x *Exec) builtinAppend(fr *frame, st *State, c *ssa.CallCommon, args []Val
 	}
 	ncap := vc.freshConst("ncap", idxS)
 	vc.assume(st.pc, And(vc.ar.Cmp(">=", ncap, newlen, kInt), vc.ar.InRange(ncap, kInt)))
-	st.heap[key] = vc.bind("E", Ite(fits, Store(E, sref, inplace), Store(E, r2, freshFull)))
+	x.vc.setHeap(st, key, vc.bind("E", Ite(fits, Store(E, sref, inplace), Store(E, r2, freshFull))), -1)
 	res := Ite(fits, app("Slice", "mk-slice", sref, soff, newlen, scap), app("Slice", "mk-slice", r2, vc.idx(0), newlen, ncap))
 	// appending nothing to nil yields nil: Go returns the original slice when n == 0
 	res = Ite(Eq(n, vc.idx(0)), s, res)
 	if n.C == nil || n.C.Sign() == 0 {
-		st.heap[key] = vc.bind("E", Ite(Eq(n, vc.idx(0)), E, st.heap[key]))
+		x.vc.setHeap(st, key, vc.bind("E", Ite(Eq(n, vc.idx(0)), E, st.heap[key])), -1)
 	}
-	return Val{T: vc.bind("app", res), Typ: c.Args[0].Type()}, nil
+	rv := vc.bind("app", res)
+	// Derived facts (consequences of the encoding above, stated to guide quantifier
+	// instantiation): the result agrees with s on the old range, and holds the new elements.
+	{
+		nE := st.heap[key]
+		nref, noff := app(SInt, "s-ref", rv), app(idxS, "s-off", rv)
+		newAt := func(i string) string {
+			return "(select (select " + nE.S + " " + nref.S + ") " + x.addS(noff.S, i) + ")"
+		}
+		oldAt := func(i string) string { return "(select " + arrA.S + " " + x.addS(soff.S, i) + ")" }
+		vc.assume(st.pc, raw(fmt.Sprintf("(forall ((i!q %s)) (! (=> %s (= %s %s)) :pattern (%s) :pattern (%s)))",
+			idxS, x.qrange("i!q", vc.idx(0).S, slen.S), newAt("i!q"), oldAt("i!q"), newAt("i!q"), oldAt("i!q")), SBool))
+		if n.C != nil && n.C.Int64() <= 8 {
+			for i := int64(0); i < n.C.Int64(); i++ {
+				at, _ := vc.ar.Bin("+", slen, vc.idx(i), kInt)
+				vc.assume(st.pc, raw("(= "+newAt(at.S)+" "+srcAt(vc.idx(i)).S+")", SBool))
+			}
+		}
+	}
+	return Val{T: rv, Typ: c.Args[0].Type()}, nil
 }
 
 func (x *Exec) addS(a, b string) string {
@@ -865,8 +884,8 @@ func (x *Exec) builtinCopy(fr *frame, st *State, c *ssa.CallCommon, args []Val, 
 	var slen Term
 	var srcAt func(i string) string
 	if isString(c.Args[1].Type()) {
-		slen = app(idxS, "str.len", args[1].T)
-		srcAt = func(i string) string { return "(str.at " + args[1].T.S + " " + i + ")" }
+		slen = app(idxS, "gs.len", args[1].T)
+		srcAt = func(i string) string { return "(gs.at " + args[1].T.S + " " + i + ")" }
 	} else {
 		s := args[1].T
 		slen = app(idxS, "s-len", s)
@@ -880,6 +899,6 @@ func (x *Exec) builtinCopy(fr *frame, st *State, c *ssa.CallCommon, args []Val, 
 	lim, _ := vc.ar.Bin("+", doff, n, kInt)
 	vc.assert(raw(fmt.Sprintf("(forall ((i!q %s)) (! (= (select %s i!q) (ite %s %s (select %s i!q))) :pattern ((select %s i!q))))",
 		idxS, na.S, x.qrange("i!q", doff.S, lim.S), srcAt(x.subS("i!q", doff.S)), darr.S, na.S), SBool))
-	st.heap[key] = vc.bind("E", Ite(Eq(n, vc.idx(0)), E, Store(E, dref, na)))
+	x.vc.setHeap(st, key, vc.bind("E", Ite(Eq(n, vc.idx(0)), E, Store(E, dref, na))), -1)
 	return Val{T: n, Typ: types.Typ[types.Int]}, nil
 }
